@@ -129,6 +129,8 @@ func (s *faultyStore) checkPrefix(when string) {
 	}
 }
 
+var drvWrites = map[string]int{}
+
 func driverUnits(tier string) []mc.Unit {
 	var us []mc.Unit
 	seqs := map[sk.Kind][][]string{
@@ -143,7 +145,12 @@ func driverUnits(tier string) []mc.Unit {
 					continue
 				}
 				p := drvParams{store, seq, fa, 3}
-				us = append(us, mc.Unit{Name: fmt.Sprintf("driver:%s:%v:fault@%d", store, seq, fa), Params: p})
+				u := mc.Unit{Name: fmt.Sprintf("driver:%s:%v:fault@%d", store, seq, fa), Params: p}
+				if tier == "thorough" {
+					us = append(us, mc.Sliced(u, 12)...) // thousands of executions per unit, each opening a store
+				} else {
+					us = append(us, u)
+				}
 			}
 		}
 	}
@@ -168,22 +175,26 @@ func runDriver(c *mc.Ctx, p drvParams) {
 		blocks = append(blocks, aggsync.EVMBlock{EVMBlockHeader: aggsync.EVMBlockHeader{Num: b.Num, Hash: b.Hash}, Events: b.Events, IsFinalizedBlock: true})
 		seq = append(seq, b.Num)
 	}
-	// K for the faulted block: measured by a dry run
-	dry := sk.Open(p.Store, dir)
-	dry.InstallFaultTriggers()
-	K := 0
-	for i, rb := range chain.Blocks {
-		dry.Arm(-1)
-		if err := dry.Process(rb.Block); err != nil {
-			dry.Close()
-			c.Failf(fmt.Sprintf("%s/ProcessBlock/error-on-valid-block", p.Store), "dry run block %d: %v", rb.Num, err)
-			return
+	// K for the faulted block: measured by a dry run (once per process and script: every store construction leaks descriptors)
+	ksig := fmt.Sprintf("%s|%v|%d", p.Store, p.Blocks, p.FaultAt)
+	K, known := drvWrites[ksig]
+	if !known {
+		dry := sk.Open(p.Store, dir)
+		dry.InstallFaultTriggers()
+		for i, rb := range chain.Blocks {
+			dry.Arm(-1)
+			if err := dry.Process(rb.Block); err != nil {
+				dry.Close()
+				c.Failf(fmt.Sprintf("%s/ProcessBlock/error-on-valid-block", p.Store), "dry run block %d: %v", rb.Num, err)
+				return
+			}
+			if i == p.FaultAt {
+				K = dry.Writes()
+			}
 		}
-		if i == p.FaultAt {
-			K = dry.Writes()
-		}
+		dry.Close()
+		drvWrites[ksig] = K
 	}
-	dry.Close()
 	// fault plan: the same write fails on 1..MaxRetry consecutive attempts (MaxRetry = the driver gives
 	// up); thorough additionally explores every (first, second) position pair
 	var plan []int
